@@ -569,10 +569,19 @@ func serveStress(s *Summary, rng *rand.Rand, n int, out *traceWriter) {
 			// an application's own 405 handler that edits the list of allowed methods it was given (its request's data)
 			r.NotAllowed(func(c *rux.Context) {
 				al, _ := c.SafeGet(rux.CTXAllowedMethods).([]string)
-				for i := range al {
-					al[i] = strings.ToUpper(al[i])
+				// the list is this request's own: nobody has touched it before ...
+				for _, m := range al {
+					if m != strings.ToUpper(m) {
+						if rl, ok := c.Req.Context().Value(reqLogKey{}).(*reqLog); ok {
+							rl.copyBad = fmt.Sprintf("the list of allowed methods given to the 405 handler was edited by another request: %v", al)
+						}
+					}
 				}
-				c.SetHeader("Allow", strings.Join(al, ","))
+				// ... and it may edit it (here: lower-case spelling for its own page)
+				for i := range al {
+					al[i] = strings.ToLower(al[i])
+				}
+				c.SetHeader("Allow", strings.ToUpper(strings.Join(al, ",")))
 				c.SetStatus(405)
 			})
 		}
@@ -641,7 +650,7 @@ func serveStress(s *Summary, rng *rand.Rand, n int, out *traceWriter) {
 					}()
 					atomic.AddInt64(&finished, 1)
 					got, par := rl.log, rl.param
-					if wr.Intn(4) == 0 || kind == "rd" || kind == "o" {
+					if wr.Intn(4) == 0 || kind == "rd" || kind == "o" || kind == "na" {
 						rl.bg.Wait()
 						if rl.copyBad != "" {
 							mu.Lock()
